@@ -236,31 +236,29 @@ inductive Out where
   | unknown (name : Str)
   /-- PyXFormError "There are multiple survey elements with this name." -/
   | ambiguous (name : Str)
-  /-- `xpath.split("/")[2]` on the survey root: IndexError (survey.py 1110) -/
-  | internal (site : String)
 deriving DecidableEq, Repr, Inhabited
 
-/-- `_relative_path` (survey.py 1102-1126) -/
+/-- `_relative_path` (survey.py 1102-1127; `len(xpath.split("/")) > 2` guards the index since fb6aa8f, so a
+reference to the survey root falls through to the absolute path) -/
 def relativePath (reps : List Str) (c t : Chain) (name : Str) (referenceParent : Bool) :
-    Except String (Option (Nat × List Str)) :=
+    Option (Nat × List Str) :=
   let cs := splitOnChar '/' c.xpath
   let ts := splitOnChar '/' t.xpath
-  if cs.length > 2 then
+  if cs.length > 2 && ts.length > 2 then
     match ts[2]?, cs[2]? with
-    | none, _ => .error "IndexError survey.py:_relative_path xpath.split('/')[2]"
     | some a, some b =>
       if a = b then
-        if !related c t then .ok none
+        if !related c t then none
         else match shareSameRepeatParent reps t.xpath c.xpath referenceParent with
           | some (steps, parts) =>
-            if steps = 0 then .ok none
+            if steps = 0 then none
             else
               -- ref_path if ref_path.endswith(ref_name) else f"/{name}"
-              .ok (some (steps, if endsWith (pathStr parts) name then parts else [name]))
-          | none => .ok none
-      else .ok none
-    | some _, none => .ok none
-  else .ok none
+              some (steps, if endsWith (pathStr parts) name then parts else [name])
+          | none => none
+      else none
+    | _, _ => none
+  else none
 
 /-- `_var_repl_function`: the structured result for context element `ctx` (`none`: no context given). -/
 def refFor (els : List Chain) (ctx : Option Chain) (name : Str) (fl : Flags) : Out :=
@@ -274,9 +272,8 @@ def refFor (els : List Chain) (ctx : Option Chain) (name : Str) (fl : Flags) : O
     | some c =>
       if !fl.lastSaved && !fl.indexedArg then
         match relativePath (repeatXpaths els) c t name fl.referenceParent with
-        | .error site => .internal site
-        | .ok (some (steps, down)) => .ok (fl.useCurrent || fl.inPredicate) (.rel steps down)
-        | .ok none => absOut
+        | some (steps, down) => .ok (fl.useCurrent || fl.inPredicate) (.rel steps down)
+        | none => absOut
       else absOut
 
 /-- the replacement text: `" " + [current()/] + path + " "` (survey.py 1123-1124, 1195) -/
